@@ -543,10 +543,20 @@ FTP_E2E_LISTINGS = [
     'lrwxrwxrwx 1 u g 5 Jan 01 2020 f.txt -> \r\n',
     '-rw-r--r-- 1 u g 99999999999999999999999 Jan 01 2020 f.txt\r\n',
     '-rwsr-Sr-T 1 u g 5 Feb 30 25:61 f.txt\r\n',
+    # symbolic links (created locally with --retr-symlinks=off): same name twice, a name
+    # that is a directory, an empty name, a name longer than the file system allows
+    'lrwxrwxrwx 1 u g 5 Jan 01 2020 l -> f.txt\r\nlrwxrwxrwx 1 u g 5 Jan 01 2020 l -> g.txt\r\n',
+    'lrwxrwxrwx 1 u g 5 Jan 01 2020 sub/ -> f.txt\r\n',
+    'lrwxrwxrwx 1 u g 5 Jan 01 2020  -> f.txt\r\n',
+    'lrwxrwxrwx 1 u g 5 Jan 01 2020 %s -> f.txt\r\n' % ('n' * 300),
+    'lrwxrwxrwx 1 u g 5 Jan 01 2020 l -> %s\r\n' % ('t' * 5000),
+    'lrwxrwxrwx 1 u g 5 Jan 01 2020 l\x00m -> a\x00b\r\n',
+    'lrwxrwxrwx 1 u g 5 Jan 01 2020 caf\xe9 -> \xe9t\xe9\r\n',
 ]
 FTP_E2E_SCENARIOS = {
     'files': (['ftp://f.test/dir/f.txt', 'ftp://f.test/zz/g.txt'], []),
     'tree': (['ftp://f.test/dir/'], ['-r', '--preserve-permissions']),
+    'links': (['ftp://f.test/dir/'], ['-r', '--retr-symlinks=off']),
 }
 
 
